@@ -223,6 +223,29 @@ FrameSizeSelect(fs, dur, Fs) ==
   ELSE LET n == IF dur = FRAMESIZE_ARG THEN fs ELSE DurSamples(dur, Fs) IN
        IF n > fs \/ n \notin FrameSizes(Fs) THEN -1 ELSE n
 
+(* frame_size_select() of src/opus_encoder.c, transcribed statement by statement (x << k as x * 2^k;    *)
+(* every product stays below 2^31 for buffers up to 2^22 samples, R6).  EncCtlFsel_mc checks on the whole *)
+(* grid (Fs, duration setting, buffer length) that it is FrameSizeSelect, i.e. the declarative reading    *)
+(* SelectedFrameSize of opus_defines.h: "the selected frame size is the requested duration when one is    *)
+(* set and the buffer holds that much, and the buffer length itself under OPUS_FRAMESIZE_ARG".            *)
+FrameSizeSelectC(fs, dur, Fs) ==
+  IF fs < Fs \div 400 THEN -1
+  ELSE IF dur # FRAMESIZE_ARG /\ ~(dur >= 5001 /\ dur <= 5009) THEN -1
+  ELSE LET new == IF dur = FRAMESIZE_ARG THEN fs
+                  ELSE IF dur <= 5005 THEN (Fs \div 400) * (2 ^ (dur - 5001))
+                  ELSE ((dur - 5001 - 2) * Fs) \div 50 IN
+       IF new > fs THEN -1
+       ELSE IF /\ 400 * new # Fs /\ 200 * new # Fs /\ 100 * new # Fs
+               /\ 50 * new # Fs /\ 25 * new # Fs /\ 50 * new # 3 * Fs
+               /\ 50 * new # 4 * Fs /\ 50 * new # 5 * Fs /\ 50 * new # 6 * Fs
+            THEN -1 ELSE new
+
+\* OPUS_FRAMESIZE_2_5_MS .. OPUS_FRAMESIZE_120_MS in units of 2.5 ms (opus_defines.h)
+DurQ == <<1, 2, 4, 8, 16, 24, 32, 40, 48>>
+SelectedFrameSize(buf, dur, Fs) ==
+  LET want == IF dur = FRAMESIZE_ARG THEN buf ELSE (DurQ[dur - 5000] * Fs) \div 400 IN
+  IF want <= buf /\ want \in FrameSizes(Fs) THEN want ELSE -1
+
 \* r is an accepted Framing!Parse result; the obligations only look at these attributes of it
 CodesAudio(r)        == \E i \in 1..r.count : r.sizes[i] >= 2
 PacketSamples(r, Fs) == r.count * SamplesPerFrame(r.toc, Fs)
@@ -241,6 +264,11 @@ BwLimit(S) == IF S.userBandwidth # OPUS_AUTO THEN S.userBandwidth ELSE S.maxBand
 (* The obligations.  S settings, G ghost, p = PktAttr of the packet,        *)
 (* nS = FrameSizeSelect(frame_size argument, S.frameDuration, S.Fs).         *)
 DurationMatches(S, nS, p)    == p.samples = nS
+(* DurationHonoured: the packet's duration is the requested one - whichever PCM entry point took the    *)
+(* call and however long the caller's buffer (buf samples per channel) was.  ns is what the library's     *)
+(* own opus_packet_get_nb_samples() says about the packet, p.samples what Framing!Parse says.             *)
+DurationHonoured(S, buf, p, ns) ==
+  LET nS == FrameSizeSelect(buf, S.frameDuration, S.Fs) IN p.samples = nS /\ ns = nS
 ShortFramesAreCelt(S, nS, p) == (nS > 0 /\ nS < S.Fs \div 100) => p.mode = MODE_CELT
 NyquistHonoured(S, p)        == p.bw <= BwCap(p.mode, NyquistBw(S.Fs))
 BandwidthHonoured(S, G, p) ==
